@@ -58,17 +58,17 @@ CLAIMED["C09"] = dict(
     text="Kernel-checked refinement (mutual induction on the runtime tree, no size bound): appendOne_spec/appendKids_spec/C09_union/"
          "C09_save — for EVERY file holding the encoding of a well-formed tree F and EVERY well-formed runtime tree R with the same "
          "root name, a whole-root append / append-over rewrites exactly that root group into the encoding of a well-formed tree T' "
-         "with info(T' at p) = combine mode (info(F at p)) (info(R at p)) at every path: file nodes unchanged (append) or replaced "
-         "(append-over), runtime-only nodes added at their path with their whole branch, file-only nodes kept also below replaced "
-         "nodes (C09_existing_kept/_new_added/_replaced/_nothing_else); C09_root_md(+_fresh) — root metadata follow the same rule per "
-         "entry name; C09_other_roots — other trees and the header untouched. Since T' is again encode of a well-formed tree the "
-         "statement iterates over sequences of appends.",
-    note="PARTIAL for targeted appends (inner node x tree option, emdpath variants, foreign node/root under an emdpath): the whole "
-         "30-way dispatch of write.py is modelled branch for branch and compared with the implementation on every kind of target by "
-         "the correspondence (thousands of appends per thorough run), but theorems are proved for the whole-root append only. "
+         "with info(T' at p) = combine mode (info(F at p)) (info(R at p)) at every path (C09_existing_kept/_new_added/_replaced/"
+         "_nothing_else); C09_root_md(+_fresh) — root metadata per entry name; C09_other_roots — other trees and header untouched. "
+         "Targeted appends through the real dispatch and path matching, by a zipper lemma (updateAt_encode): C09_target_new_branch, "
+         "C09_target_new_single, C09_target_below, C09_foreign_branch, C09_foreign_single — exactly the selection is added exactly "
+         "there — with C09_target_frame (every path not through the target keeps its content). Sequences: C09_closed (every "
+         "theorem applies again after any append) and C09_twice.",
+    note="Not proved, modelled branch for branch and compared only: the remaining leaves of the 30-way dispatch (append-over on an "
+         "inner target with tree=True/False, emdpath combined with a root already in the file, a foreign Root's children). "
          "compatKids is the explicit 'common name space' domain: no runtime child named like an object of the body it lands in, "
          "scratch name _tmp_<name> free, old children not named like objects of the replacing body. Bodies opaque.",
-    technique="Lean 4 refinement proof to a path-wise union spec + differential correspondence over (file tree, runtime tree) pairs",
+    technique="Lean 4 refinement proof to a path-wise union spec (whole-root and targeted appends, zipper lemma) + differential correspondence over (file tree, runtime tree) pairs",
     design="7 C09")
 
 CLAIMED["C10"] = dict(
